@@ -227,13 +227,21 @@ def check(tier):
     rep = Report(PID, tier, "exploration")
     dl = Deadline(480 if tier == "quick" else 3300)
     wd = fresh_dir(PID)
-    core = families.core_cases(1) + families.core_cases(2, terms=("x", "y"), consts=(), cmp_ops=("<",))[:: (3 if tier == "quick" else 1)]
+    core2 = families.core_cases(2, terms=("x", "y"), consts=(), cmp_ops=("<",))
+    if tier == "quick":
+        # every third rule, and every rule with a negation (its proof must pick a witness that makes the negated atom false)
+        from ..dl import Neg as _Neg
+        keep = {id(c) for c in core2[::3]}
+        core2 = [c for c in core2 if id(c) in keep or any(l.__class__ is _Neg for l in c.prog.rules[-1].body)]
+    core = families.core_cases(1) + core2
     core = [c for c in core if connected(c)]
     cases = core + gen2.family_mutrec("quick") + gen2.family_multirec("quick")
     # cids must be unique
     by = {}
     fams = [("core", core), ("mutrec", gen2.family_mutrec("quick")), ("multirec", gen2.family_multirec("quick"))]
     dbs = gen.dbs_core_quick()[-6:] if tier == "quick" else gen.dbs_core_quick()
+    # several candidate witnesses per head tuple, the first one in index order failing a negated / compared literal
+    dbs = list(dbs) + [{"a": ((1,),), "e": ((0, 1), (0, 2), (2, 1), (2, 2))}, {"a": ((0,), (1,)), "e": ((0, 0), (0, 1), (0, 2), (1, 1), (1, 2))}]
     for di, db in enumerate(dbs):
         for n in ("a", "e"):
             run.write_facts(os.path.join(wd, "db%d" % di), n, db.get(n, ()))
